@@ -294,7 +294,16 @@ func octal(m uint32, alt bool) yaml.Node {
 	return yaml.Node{Kind: yaml.ScalarNode, Tag: "!!int", Value: s}
 }
 
-func ts(sec int64) string { return time.Unix(sec, 0).UTC().Format(time.RFC3339) }
+// ts spells an instant as an RFC 3339 timestamp. The zone it is written in is a function of the instant (so a case
+// always renders the same way); the instant itself, which is all a package may record, does not depend on the spelling.
+func ts(sec int64) string {
+	zones := []*time.Location{time.UTC, time.FixedZone("", 9*3600), time.FixedZone("", -5*3600), time.FixedZone("", 5*3600+1800), time.FixedZone("", -(3*3600 + 1800)), time.UTC, time.UTC}
+	i := sec % int64(len(zones))
+	if i < 0 {
+		i = -i
+	}
+	return time.Unix(sec, 0).In(zones[i]).Format(time.RFC3339)
+}
 
 // ConfigMap renders the case as a generic map (ordered keys do not matter to the parser).
 func (c *BuildCase) ConfigMap(root string) map[string]any {
